@@ -21,6 +21,8 @@ import CweModel.C10.RunPropagation
 import CweModel.C10.RunDeadVars
 import CweModel.C10.RunStackAlign
 import CweModel.C10.RunControlFlow
+import CweModel.C10.Transport
+import CweModel.C10.RunLocalsTransport
 
 namespace CweModel.C10
 open CweModel CweModel.IR CweModel.Sem CweModel.C12
@@ -109,21 +111,32 @@ theorem stage2_subs (p : Program) : (stage2 p).subs = p.subs.map (stage2Sub p) :
   simp only [stage2, substTrivialProgram, mapProgramSubs, propagateProgram_subs, List.map_map]
   rfl
 
-/-- The hypotheses of the composition theorem that are not hypotheses of the property: the architecture,
-the structural conditions on the control flow (on the input program for expression propagation, on the
-intermediate programs for dead variable elimination and control flow propagation), and that the two fuelled
-fixpoint iterations of the model reached a post-fixpoint. All of them are executable conditions on the input
-program or on outputs of the pass models; the driver evaluates them on every generated case. -/
+/-- The hypotheses of the composition theorem that are not hypotheses of the property:
+  * the architecture (the stack alignment substitution is proved for x86_64: 8-byte stack pointer, alignment 16);
+  * every register of the snapshots is a physical register for dead variable elimination;
+  * structural conditions on the INPUT program: `CfOk` (unique jump and block tids, at most two jumps per block
+    the first of two conditional, no `CallOther` with a return site — recorded known limitation —, calls with a
+    return site target an extern symbol or a function with a returning block) and `dveShapeOk` (a conditional
+    jump is followed by a jump that always has a CFG edge);
+  * the two fuelled fixpoint iterations of the MODEL reached a post-fixpoint (executable conditions on outputs
+    of the model; the driver evaluates them on every generated case). -/
 structure OptimizeHyp (env : Env) (arch : String) (phys : VarSet) (p : Program) : Prop where
   arch64 : arch = "x86_64"
   sp8 : env.sp.size = 8
   regs : ∀ v ∈ env.physRegs, v ∈ phys
-  cfg : ∀ s ∈ p.subs, subCfgOk p s = true
+  cf : CfOk p
+  shape : ∀ s ∈ p.subs, dveShapeOk s.term.blocks = true
   tablesClosed : tablesClosed (mergeAssignmentsProgram p) (computeTables (mergeAssignmentsProgram p)) = true
   tablesReach : tablesReach (mergeAssignmentsProgram p) (computeTables (mergeAssignmentsProgram p)) = true
-  shape₂ : ∀ s ∈ (stage2 p).subs, dveShapeOk s.term.blocks = true
   alive₂ : ∀ s ∈ (stage2 p).subs, aliveClosed phys s.term.blocks (computeAliveVars phys s.term.blocks) = true
-  cf₃ : CfOk (stage3 phys p)
+
+/-- the jump shapes needed by dead variable elimination are kept by the first two stages -/
+theorem dveShapeOk_stage2Sub (p : Program) (s : Term Sub) (h : dveShapeOk s.term.blocks = true) :
+    dveShapeOk (stage2Sub p s).term.blocks = true := by
+  simp only [stage2Sub, propagateSub_eq, mapSubBlocks]
+  rw [dveShapeOk_keeps keepsCfg_trivial s, dveShapeOk_keeps (keepsCfg_propagate _) s,
+    dveShapeOk_keeps keepsCfg_merge s]
+  exact h
 
 theorem observable_ne_fuel {e : Event} (h : e ≠ .outOfFuel) : observable e ≠ .outOfFuel := by
   cases e <;> simp_all [observable]
@@ -154,23 +167,20 @@ theorem FuelLe.map_observable {a b : List Event} (h : CF.FuelLe a b) :
 trivial expression substitution, dead variable elimination, control flow propagation, stack alignment
 substitution — preserves the observable behaviour of every function: for every size-consistent program `p`
 satisfying `OptimizeHyp`, every function `ss.1` of `p` and its image `ss.2`, every well-formed initial state with a
-16-byte aligned stack pointer and every fuel, if the run of `ss.1` keeps the boolean discipline (H1) and does
-not get stuck (H3), and the run of the function after the first two stages keeps H2 (`RunLocals`:
-non-physical registers are assigned before they are read and do not live across calls), then the observable
-traces agree (`Sem.tracesAgree`: equal, or equal up to the point where the unoptimised run, which executes the
-forwarding blocks the optimised one skips, runs out of fuel).
+16-byte aligned stack pointer and every fuel, if the run of `ss.1` keeps the boolean discipline (H1), keeps H2
+(`RunLocals`: non-physical registers are assigned before they are read and do not live across calls) and does
+not get stuck (H3), then the observable traces agree (`Sem.tracesAgree`: equal, or equal up to the point where
+the unoptimised run, which executes the forwarding blocks the optimised one skips, runs out of fuel).
 
-Partial with respect to `NormalizeOptimizePreservesObs`: the hypotheses `OptimizeHyp` (see there) and that H2
-is assumed for the run of the intermediate function `stage2Sub p ss.1` rather than derived from H2 of the run of
-`ss.1`. -/
+Partial with respect to `NormalizeOptimizePreservesObs`: the hypotheses `OptimizeHyp` (see there) and H2, which
+the property does not state (it is a hypothesis of the executable specification: P-Code temporaries are local). -/
 theorem normalizeOptimize_preserves_partial (env : Env) (arch : String) (phys : VarSet) (p : Program)
     (hp : WellSizedProgram p env.sp.size) (H : OptimizeHyp env arch phys p)
     (ss : Term Sub × Term Sub) (hss : ss ∈ p.subs.zip (normalizeOptimize arch env.sp phys p).subs)
     (σ : State) (fuel : Nat) (hσ : StateWF σ) (halign : (σ.getReg env.sp).toNat % 16 = 0)
     (hok : ∀ b bs, ss.1.term.blocks = b :: bs → RunOk env ss.1.term.blocks fuel b.tid σ 0)
     (hns : NoStuck (runSub env ss.1.term σ fuel))
-    (hloc : ∀ b bs, (stage2Sub p ss.1).term.blocks = b :: bs →
-      RunLocals env phys (stage2Sub p ss.1).term.blocks fuel b.tid σ 0 []) :
+    (hloc : ∀ b bs, ss.1.term.blocks = b :: bs → RunLocals env phys ss.1.term.blocks fuel b.tid σ 0 []) :
     tracesAgree ((runSub env ss.1.term σ fuel).map observable)
       ((runSub env ss.2.term σ fuel).map observable) = true := by
   -- the functions of the output, stage by stage
@@ -186,17 +196,25 @@ theorem normalizeOptimize_preserves_partial (env : Env) (arch : String) (phys : 
   obtain ⟨hmem, himg⟩ := zip_map_mem _ _ ss hss
   rw [himg]
   generalize ss.1 = s at hmem hok hns hloc ⊢
-  -- stage 1: expression propagation (exact, transports H1)
-  have hs₁ : (s, propagateSub (computeTables (mergeAssignmentsProgram p)) (mapSubBlocks mergeDefAssignmentsToSameVar s)) ∈
-      p.subs.zip (propagateProgram p).subs := by
-    rw [propagateProgram_subs]
-    exact List.mem_iff_getElem.mpr (by
-      obtain ⟨i, hi, rfl⟩ := List.getElem_of_mem hmem
-      exact ⟨i, by simpa using hi, by simp⟩)
-  obtain ⟨e₁, ok₁⟩ := propagateProgram_preserves env p hp H.tablesClosed H.tablesReach _ hs₁ (H.cfg s hmem)
-    σ fuel hσ hok hns
-  simp only at e₁ ok₁
-  -- stage 2: trivial expression substitution (exact)
+  have hcfg : subCfgOk p s = true := subCfgOk_of_cfOk H.cf hmem
+  -- stage 1a: merging of assignments (exact, transports H1 and H2)
+  obtain ⟨e₀, ok₀⟩ := mergeAssignments_runSub env s σ fuel hok hns
+  have hns₀ : NoStuck (runSub env (mapSubBlocks mergeDefAssignmentsToSameVar s).term σ fuel) := by rw [e₀]; exact hns
+  have loc₀ := mergeAssignments_runLocalsSub env phys s σ fuel hloc hns
+  -- stage 1b: block-local insertion of the fixpoint tables (exact, transports H1 and H2)
+  have hp₁ := mergeAssignmentsProgram_wellSized hp
+  have hm₁ : mapSubBlocks mergeDefAssignmentsToSameVar s ∈ (mergeAssignmentsProgram p).subs := by
+    simp only [mergeAssignmentsProgram, mapProgramSubs, List.mem_map]
+    exact ⟨s, hmem, rfl⟩
+  have hcfg₁ := subCfgOk_mapBlocks (g := mergeDefAssignmentsToSameVar) (fun _ => rfl) hcfg
+  have hws := computeTables_ws hp₁
+  obtain ⟨e₁, ok₁⟩ := propagateWith_runSub env (mergeAssignmentsProgram p) hp₁ _ hws H.tablesClosed H.tablesReach
+    _ hm₁ hcfg₁ σ fuel hσ ok₀ hns₀
+  have loc₁ := propagateWith_runLocalsSub env phys (mergeAssignmentsProgram p) hp₁ _ hws H.tablesClosed
+    H.tablesReach _ hm₁ hcfg₁ σ fuel hσ ok₀ loc₀ hns₀
+  have hns₁ : NoStuck (runSub env (propagateSub (computeTables (mergeAssignmentsProgram p))
+      (mapSubBlocks mergeDefAssignmentsToSameVar s)).term σ fuel) := by rw [e₁]; exact hns₀
+  -- stage 2: trivial expression substitution (exact, transports H2)
   have hws₁ : WellSizedSub env.sp.size
       (propagateSub (computeTables (mergeAssignmentsProgram p)) (mapSubBlocks mergeDefAssignmentsToSameVar s)).term := by
     apply propagateProgram_wellSized hp
@@ -204,19 +222,21 @@ theorem normalizeOptimize_preserves_partial (env : Env) (arch : String) (phys : 
     exact List.mem_map.mpr ⟨s, hmem, rfl⟩
   have e₂ : runSub env (stage2Sub p s).term σ fuel = runSub env s.term σ fuel := by
     unfold stage2Sub
-    rw [substTrivial_runSub env _ hws₁ σ fuel hσ ok₁ (by rw [e₁]; exact hns), e₁]
+    rw [substTrivial_runSub env _ hws₁ σ fuel hσ ok₁ hns₁, e₁, e₀]
+  have loc₂ : RunLocalsSub env phys (stage2Sub p s) σ fuel :=
+    substTrivial_runLocalsSub env phys _ hws₁ σ fuel hσ ok₁ loc₁ hns₁
   -- stage 3: dead variable elimination (observable traces)
   have hm₂ : stage2Sub p s ∈ (stage2 p).subs := by
     rw [stage2_subs]; exact List.mem_map.mpr ⟨s, hmem, rfl⟩
-  have e₃ := removeDeadSub_runSub env phys (stage2Sub p s) (H.shape₂ _ hm₂) (H.alive₂ _ hm₂) H.regs σ fuel hloc
-    (by rw [e₂]; exact hns)
+  have e₃ := removeDeadSub_runSub env phys (stage2Sub p s) (dveShapeOk_stage2Sub p s (H.shape s hmem))
+    (H.alive₂ _ hm₂) H.regs σ fuel loc₂ (by rw [e₂]; exact hns)
   have hns₃ : NoStuck (runSub env (removeDeadSub phys (stage2Sub p s)).term σ fuel) :=
     NoStuck.of_map_observable e₃ (by rw [e₂]; exact hns)
   -- stage 4: control flow propagation (the optimised run needs less fuel)
   have hm₃ : removeDeadSub phys (stage2Sub p s) ∈ (stage3 phys p).subs := by
     simp only [stage3, removeDeadProgram, mapProgramSubs]
     exact List.mem_map.mpr ⟨_, hm₂, rfl⟩
-  have e₄ := propagateControlFlow_fuelLe env (stage3 phys p) H.cf₃ _ hm₃ σ fuel hns₃
+  have e₄ := propagateControlFlow_fuelLe env (stage3 phys p) (cfOk_stages phys H.cf) _ hm₃ σ fuel hns₃
   -- stage 5: stack alignment substitution (exact)
   have hea : expectedAlignmentOf arch = 16#64 := by rw [H.arch64]; exact expectedAlignmentOf_x86_64
   rw [hea, saSub_runSub env _ [] σ fuel H.sp8 hσ halign]
@@ -225,6 +245,25 @@ theorem normalizeOptimize_preserves_partial (env : Env) (arch : String) (phys : 
   have := FuelLe.map_observable e₄
   rw [e₃, e₂] at this
   exact this
+
+/-- **C10-composition from the executable hypothesis check (partial).** The same with the run-time hypotheses
+H1 and H2 in the form the driver evaluates them: `hypSub` (Spec.lean) accepts the run of the unoptimised
+function, and every non-temporary variable the function reads is a physical register. -/
+theorem normalizeOptimize_preserves_of_hypSub_partial (env : Env) (arch : String) (phys : VarSet) (p : Program)
+    (hp : WellSizedProgram p env.sp.size) (H : OptimizeHyp env arch phys p)
+    (ss : Term Sub × Term Sub) (hss : ss ∈ p.subs.zip (normalizeOptimize arch env.sp phys p).subs)
+    (σ : State) (fuel : Nat) (hσ : StateWF σ) (halign : (σ.getReg env.sp).toNat % 16 = 0)
+    (hnt : NonTempPhys phys ss.1.term.blocks) (hhyp : hypSub env ss.1.term σ fuel = true)
+    (hns : NoStuck (runSub env ss.1.term σ fuel)) :
+    tracesAgree ((runSub env ss.1.term σ fuel).map observable)
+      ((runSub env ss.2.term σ fuel).map observable) = true := by
+  refine normalizeOptimize_preserves_partial env arch phys p hp H ss hss σ fuel hσ halign ?_ hns ?_
+  · intro b bs hbl
+    simp only [hypSub, hbl] at hhyp
+    exact runOk_of_hypRun env _ fuel b.tid σ 0 [] (by rw [hbl]; exact hhyp)
+  · intro b bs hbl
+    simp only [hypSub, hbl] at hhyp
+    exact runLocals_of_hypRun env phys _ hnt fuel b.tid σ 0 [] [] (fun _ h => h) (by rw [hbl]; exact hhyp)
 
 /-! ### non-vacuity: the hypotheses are satisfiable and the rules fire -/
 
@@ -251,5 +290,51 @@ example : TableValid (({ seed := 1 } : State).setReg rax (Bv.ofBytes 8 7)) [(rax
   simp only [List.mem_singleton] at hp
   subst hp
   exact ⟨by rw [eval_const, getReg_setReg]; rfl, rfl⟩
+
+/-! ### non-vacuity of the composition theorem: a concrete program on which every stage fires
+
+`b0: RAX = RBX + 1; $U1 = RAX; if ZF goto b1 else goto b2`, `b1: RCX = $U1; return`, `b2: goto b1`.
+Expression propagation rewrites `RCX = $U1` to `RCX = RBX + 1`, dead variable elimination removes the assignment to
+the temporary, control flow propagation retargets the jump to the forwarding block `b2` and removes it. -/
+
+private def xRax : Variable := ⟨"RAX", 8, false⟩
+private def xRbx : Variable := ⟨"RBX", 8, false⟩
+private def xRcx : Variable := ⟨"RCX", 8, false⟩
+private def xRsp : Variable := ⟨"RSP", 8, false⟩
+private def xZf : Variable := ⟨"ZF", 1, false⟩
+private def xT0 : Variable := ⟨"$U1", 8, true⟩
+private def xPhys : VarSet := [xRax, xRbx, xRcx, xRsp, xZf]
+private def xEnv : Env := { physRegs := xPhys, sp := xRsp }
+
+private def xP : Program :=
+  { subs := [⟨⟨"f", "0"⟩, { name := "f", blocks := [
+      ⟨⟨"b0", "0"⟩, { defs := [⟨⟨"d0", "0"⟩, .Assign xRax (.BinOp .IntAdd (.Var xRbx) (.Const 8 1))⟩,
+                               ⟨⟨"d1", "0"⟩, .Assign xT0 (.Var xRax)⟩],
+                      jmps := [⟨⟨"j0", "0"⟩, .CBranch ⟨"b1", "0"⟩ (.Var xZf)⟩, ⟨⟨"j1", "0"⟩, .Branch ⟨"b2", "0"⟩⟩] }⟩,
+      ⟨⟨"b1", "0"⟩, { defs := [⟨⟨"d2", "0"⟩, .Assign xRcx (.Var xT0)⟩],
+                      jmps := [⟨⟨"j2", "0"⟩, .Return (.Const 8 0)⟩] }⟩,
+      ⟨⟨"b2", "0"⟩, { defs := [], jmps := [⟨⟨"j3", "0"⟩, .Branch ⟨"b1", "0"⟩⟩] }⟩] }⟩],
+    externSymbols := [], entryPoints := [] }
+
+/-- the program satisfies the hypotheses of the composition theorem … -/
+example : WellSizedProgram xP xEnv.sp.size := by decide
+example : OptimizeHyp xEnv "x86_64" xPhys xP :=
+  ⟨rfl, rfl, by decide, cfOkB_sound (by decide), by decide, by decide, by decide, by decide⟩
+
+/-- … all three optimisations happen … -/
+example : (normalizeOptimize "x86_64" xRsp xPhys xP).subs.map
+    (fun s => s.term.blocks.map (fun b => (b.tid.id, b.term.defs.map (·.term), b.term.jmps.map (·.term)))) =
+    [[("b0", [.Assign xRax (.BinOp .IntAdd (.Var xRbx) (.Const 8 1))],
+        [.CBranch ⟨"b1", "0"⟩ (.Var xZf), .Branch ⟨"b1", "0"⟩]),
+      ("b1", [.Assign xRcx (.BinOp .IntAdd (.Var xRbx) (.Const 8 1))], [.Return (.Const 8 0)])]] := by decide
+
+/-- … and the run-time hypotheses hold for a concrete aligned state: the executable check accepts the run (H1, H2),
+every non-temporary variable is a physical register, the run does not get stuck (H3) -/
+private def xσ : State := State.setReg { seed := 3 } xRsp ⟨64, 0x7ffd00001230#64⟩
+example : StateWF xσ ∧ (xσ.getReg xEnv.sp).toNat % 16 = 0 :=
+  ⟨(stateWF_default 3).setReg _ _ rfl, by decide⟩
+example : hypSub xEnv (xP.subs.head!).term xσ 10 = true := by decide
+example : NonTempPhys xPhys (xP.subs.head!).term.blocks := nonTempPhysB_sound (by decide)
+example : NoStuck (runSub xEnv (xP.subs.head!).term xσ 10) := by unfold NoStuck; decide
 
 end CweModel.C10
